@@ -39,11 +39,11 @@ m = {
     "engines": [{
         "name": "zenocheck", "path": "checker/",
         "serves_properties": sorted(CLAIMED),
-        "kind_free_text": "custom repo-specific static analyzers over go/packages + go/ssa (+ CHA/VTA call graph): all-paths event rules, dominance/guard rules, who-may-write/who-may-call, lockset, constant folding of small pure functions",
+        "kind_free_text": "custom repo-specific static analyzers over go/packages + go/ssa (+ CHA/VTA call graph): all-paths event rules, dominance/guard rules, who-may-write/who-may-call, lockset, constant folding / exhaustive abstract interpretation of small functions; preceded by a source canonicalisation pass (new helpers inlined back, renames undone, as a go/packages overlay) and path-sensitive reachability for flag phis",
     }],
     "checks": checks,
     "not_applicable": [{"property_id": k, "reason": v} for k, v in sorted(NOT_APPLICABLE.items()) if k not in CLAIMED],
-    "notes": "All checks are static: they load /repo's current working tree with go/packages, build go/ssa and evaluate repo-specific rules; nothing from /repo is executed. Known findings: /verif/known_findings.txt. Per-clause limits: DESIGN.md §3 and §5.",
+    "notes": "All checks are static: they load /repo's current working tree with go/packages, build go/ssa and evaluate repo-specific rules; nothing from /repo is executed. Refactorings that only move code into helpers, rename unexported names or restate a loop are normalised away before the rules run (DESIGN.md §1.8). Known findings: /verif/known_findings.txt. Per-clause limits: DESIGN.md §3 and §5.",
 }
 json.dump(m, open('/verif/MANIFEST.json', 'w'), indent=1)
 print("MANIFEST.json written:", len(checks), "checks,", len(m["not_applicable"]), "not applicable")
